@@ -173,7 +173,7 @@ func writeUsingMaterial(mat *modeling.Material, out *txt.Writer) {
 	}
 }
 
-func writeFaceVerts(tris *iter.ArrayIterator[int], out *txt.Writer, start, end, offset int) {
+func writeFaceVerts(tris *iter.ArrayIterator[int], out *txt.Writer, start, end, offset, uvOffset, normalOffset int) {
 	shift := 1 + offset
 	for triIndex := start; triIndex < end; triIndex += 3 {
 		out.StartEntry()
@@ -188,8 +188,9 @@ func writeFaceVerts(tris *iter.ArrayIterator[int], out *txt.Writer, start, end, 
 	}
 }
 
-func writeFaceVertsAndUvs(tris *iter.ArrayIterator[int], out *txt.Writer, start, end, offset int) {
+func writeFaceVertsAndUvs(tris *iter.ArrayIterator[int], out *txt.Writer, start, end, offset, uvOffset, normalOffset int) {
 	shift := 1 + offset
+	uvShift := uvOffset - offset
 	for triIndex := start; triIndex < end; triIndex += 3 {
 		p1 := tris.At(triIndex) + shift
 		p2 := tris.At(triIndex+1) + shift
@@ -200,24 +201,25 @@ func writeFaceVertsAndUvs(tris *iter.ArrayIterator[int], out *txt.Writer, start,
 
 		out.Int(p1)
 		out.String("/")
-		out.Int(p1)
+		out.Int(p1 + uvShift)
 		out.Space()
 
 		out.Int(p2)
 		out.String("/")
-		out.Int(p2)
+		out.Int(p2 + uvShift)
 		out.Space()
 
 		out.Int(p3)
 		out.String("/")
-		out.Int(p3)
+		out.Int(p3 + uvShift)
 		out.NewLine()
 		out.FinishEntry()
 	}
 }
 
-func writeFaceVertsAndNormals(tris *iter.ArrayIterator[int], out *txt.Writer, start, end, offset int) {
+func writeFaceVertsAndNormals(tris *iter.ArrayIterator[int], out *txt.Writer, start, end, offset, uvOffset, normalOffset int) {
 	shift := 1 + offset
+	normalShift := normalOffset - offset
 	for triIndex := start; triIndex < end; triIndex += 3 {
 		p1 := tris.At(triIndex) + shift
 		p2 := tris.At(triIndex+1) + shift
@@ -228,24 +230,26 @@ func writeFaceVertsAndNormals(tris *iter.ArrayIterator[int], out *txt.Writer, st
 
 		out.Int(p1)
 		out.String("//")
-		out.Int(p1)
+		out.Int(p1 + normalShift)
 		out.Space()
 
 		out.Int(p2)
 		out.String("//")
-		out.Int(p2)
+		out.Int(p2 + normalShift)
 		out.Space()
 
 		out.Int(p3)
 		out.String("//")
-		out.Int(p3)
+		out.Int(p3 + normalShift)
 		out.NewLine()
 		out.FinishEntry()
 	}
 }
 
-func writeFaceVertAndUvsAndNormals(tris *iter.ArrayIterator[int], out *txt.Writer, start, end, offset int) {
+func writeFaceVertAndUvsAndNormals(tris *iter.ArrayIterator[int], out *txt.Writer, start, end, offset, uvOffset, normalOffset int) {
 	shift := 1 + offset
+	uvShift := uvOffset - offset
+	normalShift := normalOffset - offset
 	for triIndex := start; triIndex < end; triIndex += 3 {
 		p1 := tris.At(triIndex) + shift
 		p2 := tris.At(triIndex+1) + shift
@@ -256,23 +260,23 @@ func writeFaceVertAndUvsAndNormals(tris *iter.ArrayIterator[int], out *txt.Write
 
 		out.Int(p1)
 		out.String("/")
-		out.Int(p1)
+		out.Int(p1 + uvShift)
 		out.String("/")
-		out.Int(p1)
+		out.Int(p1 + normalShift)
 		out.Space()
 
 		out.Int(p2)
 		out.String("/")
-		out.Int(p2)
+		out.Int(p2 + uvShift)
 		out.String("/")
-		out.Int(p2)
+		out.Int(p2 + normalShift)
 		out.Space()
 
 		out.Int(p3)
 		out.String("/")
-		out.Int(p3)
+		out.Int(p3 + uvShift)
 		out.String("/")
-		out.Int(p3)
+		out.Int(p3 + normalShift)
 		out.NewLine()
 		out.FinishEntry()
 	}
@@ -358,9 +362,11 @@ func WriteMeshes(meshes []ObjMesh, materialFile string, out io.Writer) error {
 		}
 	}
 
-	var faceWriter func(tris *iter.ArrayIterator[int], out *txt.Writer, start, end, offset int)
+	var faceWriter func(tris *iter.ArrayIterator[int], out *txt.Writer, start, end, offset, uvOffset, normalOffset int)
 
 	indexOffset := 0
+	uvOffset := 0
+	normalOffset := 0
 	for _, objMesh := range meshes {
 		if len(meshes) > 1 || objMesh.Name != "" {
 			fmt.Fprintf(out, "g %s\n", objMesh.Name)
@@ -380,7 +386,7 @@ func WriteMeshes(meshes []ObjMesh, materialFile string, out io.Writer) error {
 		mats := m.Materials()
 		indices := m.Indices()
 		if len(mats) == 0 {
-			faceWriter(indices, writer, 0, indices.Len(), indexOffset)
+			faceWriter(indices, writer, 0, indices.Len(), indexOffset, uvOffset, normalOffset)
 			if err := writer.Error(); err != nil {
 				return fmt.Errorf("failed to write faces: %w", err)
 			}
@@ -393,7 +399,7 @@ func WriteMeshes(meshes []ObjMesh, materialFile string, out io.Writer) error {
 				}
 
 				nextOffset := offset + (mat.PrimitiveCount * 3)
-				faceWriter(indices, writer, offset, nextOffset, indexOffset)
+				faceWriter(indices, writer, offset, nextOffset, indexOffset, uvOffset, normalOffset)
 				if err := writer.Error(); err != nil {
 					return fmt.Errorf("failed to write faces: %w", err)
 				}
@@ -402,6 +408,12 @@ func WriteMeshes(meshes []ObjMesh, materialFile string, out io.Writer) error {
 			}
 		}
 		indexOffset += m.AttributeLength()
+		if m.HasFloat2Attribute(modeling.TexCoordAttribute) {
+			uvOffset += m.AttributeLength()
+		}
+		if m.HasFloat3Attribute(modeling.NormalAttribute) {
+			normalOffset += m.AttributeLength()
+		}
 	}
 
 	return nil
